@@ -650,7 +650,91 @@ def _untuple(x):
     return x
 
 
-PREDICATES = {"tweak_formula": p_tweak_formula, "priv_tweak": p_priv_tweak, "even_secret": p_even_secret,
+def varstr(b):
+    n = len(b)
+    if n < 0xFD:
+        return bytes([n]) + b
+    if n < 0x10000:
+        return b"\xfd" + n.to_bytes(2, "little") + b
+    return b"\xfe" + n.to_bytes(4, "little") + b
+
+
+def bip341_digest_script_path_annex(tx, leaf_hash, annex):
+    """BIP341 SigMsg for input 0 of a one-input transaction, SIGHASH_DEFAULT, script path (ext_flag 1) WITH annex
+    (spend_type = 2 * 1 + 1, sha_annex), written from the BIP text with hashlib"""
+    sha = lambda b: hashlib.sha256(b).digest()
+    tx_in, = tx.tx_ins
+    spk = tx_in._script_pubkey.raw_serialize()
+    m = b"\x00"                                                      # hash_type
+    m += tx.version.to_bytes(4, "little") + tx.locktime.to_bytes(4, "little")
+    m += sha(tx_in.prev_tx[::-1] + tx_in.prev_index.to_bytes(4, "little"))
+    m += sha(tx_in._value.to_bytes(8, "little"))
+    m += sha(varstr(spk))
+    m += sha(int(tx_in.sequence).to_bytes(4, "little"))
+    m += sha(b"".join(o.amount.to_bytes(8, "little") + varstr(o.script_pubkey.raw_serialize()) for o in tx.tx_outs))
+    m += bytes([3])                                                  # spend_type: ext_flag * 2 + annex present
+    m += (0).to_bytes(4, "little")                                   # input index
+    m += sha(varstr(annex))
+    m += leaf_hash + b"\x00" + b"\xff\xff\xff\xff"                  # tapleaf hash, key_version, codesep_pos
+    return tagged(b"TapSighash", b"\x00" + m)
+
+
+def p_witness_annex(c):
+    """script-path witnesses WITH an annex, for every leaf: control_block() / tap_script() pick items[-2] / items[-3],
+    tap_leaf().hash() is H_TapLeaf(version from the control block's first byte & 0xFE || varstr(script)) recomputed
+    with hashlib, the commitment check accepts, and (P2PK leaves) a spend signed over the BIP341 digest with annex —
+    computed here from the BIP text — passes Tx.verify_input"""
+    from buidl.ecc import PrivateKey
+    from buidl.script import P2TRScriptPubKey
+    from buidl.tx import Tx, TxIn, TxOut
+    from buidl.witness import Witness
+    tree, p = build_tree(c["tree"]), build_point(c)
+    q = tree.external_pubkey(p)
+    annex = unx(c["annex"])
+    stack = [unx(x) for x in c["stack"]]
+    for i, leaf in enumerate(tree.leaves()):
+        cb = tree.control_block(p, leaf)
+        cbb, raw = cb.serialize(), leaf.tap_script.raw_serialize()
+        want_hash = tagged(b"TapLeaf", bytes([cbb[0] & 0xFE]) + varstr(raw))
+        for items in (stack + [raw, cbb, annex], stack + [raw, cbb]):
+            with contextlib.redirect_stdout(io.StringIO()):
+                w = Witness(list(items))
+                has = bool(w.has_annex())
+                if has != (items[-1] is annex):
+                    return False, f"leaf {i}: has_annex {has}", items[-1] is annex
+                if w.control_block().serialize() != cbb:
+                    return False, f"leaf {i}: control_block() did not pick the control block", xb(cbb)
+                if w.tap_script().raw_serialize() != raw:
+                    return False, f"leaf {i}: tap_script() did not pick the script", xb(raw)
+                got = w.tap_leaf().hash()
+                if got != want_hash:
+                    return False, f"leaf {i} (annex {has}): tap_leaf().hash() = {got.hex()}", xb(want_hash)
+                if not accepts(cbb, w.tap_script(), q.xonly()):
+                    return False, f"leaf {i}: commitment check refuses", "accepted"
+    # end to end: leaf 0 is `<key> OP_CHECKSIG` for the secret c["d"]
+    if c.get("d"):
+        priv = PrivateKey(c["d"])
+        leaf = tree.leaves()[0]
+        cb = tree.control_block(p, leaf)
+        raw = leaf.tap_script.raw_serialize()
+        tx_in = TxIn(bytes(range(32)), 0)
+        tx_in._value = 70000
+        tx_in._script_pubkey = p.p2tr_script(tree.hash())
+        tx = Tx(1, [tx_in], [TxOut(60000, P2TRScriptPubKey(bytes(range(32))))], 0, network="signet", segwit=True)
+        digest = bip341_digest_script_path_annex(tx, tagged(b"TapLeaf", bytes([cb.serialize()[0] & 0xFE]) + varstr(raw)), annex)
+        sig = priv.sign_schnorr(digest).serialize()
+        tx_in.witness = Witness([sig, raw, cb.serialize(), annex])
+        with contextlib.redirect_stdout(io.StringIO()):
+            try:
+                ok = bool(tx.verify_input(0))
+            except Exception as e:
+                return False, "verify_input raised " + type(e).__name__, True
+        if not ok:
+            return False, "a spend signed over the BIP341 digest with annex does not verify", True
+    return True, len(tree.leaves()), len(tree.leaves())
+
+
+PREDICATES = {"witness_annex": p_witness_annex, "tweak_formula": p_tweak_formula, "priv_tweak": p_priv_tweak, "even_secret": p_even_secret,
               "sibling_order": p_sibling_order, "tree_leaves": p_tree_leaves, "cb_alter": p_cb_alter,
               "script_alter": p_script_alter, "cb_length": p_cb_length}
 
@@ -879,6 +963,21 @@ def run(ctx):
                 hcases.append({"tree": hspec, "keys": hkeys, "steps": history_steps(rng, n, nk)})
                 rec.count(f"history:keys={nk}")
                 rec.count("history:parities=" + "".join(str(k[2] % 2) for k in hkeys))
+            # script-path witnesses with an annex, every leaf; leaf 0 a P2PK tapscript spent end to end
+            for wi in range(ctx.n(8, 60)):
+                n = 1 + wi % 4
+                wk = keys[rng.randrange(len(keys))]
+                wleaves = [(rng.choice([0xC0, 0xC0, 0xC2]), ("C", random_script(rng))) for _ in range(n)]
+                wleaves[-1] = (0xC0, ("C", [wk[1].to_bytes(32, "big"), 0xAC]))      # popped first by fill(): leaf 0
+                wspec = fill(rng, random_shape(rng, n), wleaves)
+                ik = pick_key(wi)
+                preds.append(("witness_annex", {"tree": wspec, "px": ik[1], "py": ik[2],
+                                                "d": wk[0] if leaves_of(wspec)[0][1][1][0] == wk[1].to_bytes(32, "big") else 0,
+                                                "annex": xb(b"\x50" + rbytes(rng, rng.randrange(0, 9))),
+                                                "stack": [xb(rbytes(rng, rng.choice([0, 64])))] * (wi % 2)}))
+            if not flush():
+                rec.note("stopped after the annex witnesses: failing input found")
+                return
             check_histories(ctx, drv, hcases, history_c12, "history")
             if rec.violations or rec.disagreements:
                 rec.note("stopped after the object-reuse histories: failing input found")
@@ -951,8 +1050,8 @@ def run(ctx):
         annex = bytes([0x50]) + rbytes(rng, rng.randrange(0, 5))
         stack = [rbytes(rng, rng.choice([0, 64, 65])) for _ in range(rng.randrange(0, 3))]
         for items in (stack + [raw, cbb], stack + [raw, cbb, annex], [cbb], [raw, cbb, b""], [], [annex], [cbb, annex]):
-            add("witness_cb", f"witness_cb {blist(items)}", determined=False)
-            add("witness_leaf", f"witness_leaf {blist(items)}", determined=False)
+            add("witness_cb", f"witness_cb {blist(items)}")
+            add("witness_leaf", f"witness_leaf {blist(items)}")
 
     if not flush():
         rec.note("alteration sweeps skipped: failing input found")
